@@ -35,7 +35,7 @@ UnsetX == [set |-> FALSE, s |-> IdState]
 
 \* ------------------------------------------------------------------ observed-map model
 \* expected observed map after the event, or "any" for chained generators
-KeepCalls == {"save", "save_named", "set_pivot", "delete", "ctx_enter"}
+KeepCalls == {"save", "save_named", "set_pivot", "delete", "ctx_enter", "ctx_create"}
 NextO(e) ==
   LET obs == Qs(e) IN
   CASE e.out # "ok" -> [O EXCEPT !.obs = obs]
